@@ -1,2 +1,62 @@
-(* C02 -- placeholder until the proofs land *)
-Require Import XV.TextFormat.
+(* C02 -- the textual edit-script format round-trips.
+
+   Model: XV.TextFormat.format / parse are generic interpreters of
+   formatting.DiffFormatter and patch.DiffParser (including _split) over the
+   tables XV.Gen.TextTables.tables, which the translator regenerates from
+   /repo/xmldiff/{actions,formatting,patch}.py on every run; the interpreters,
+   XV.Str and XV.Json are validated against the implementation by differential
+   testing.
+
+   C02_tables_ok    the generated tables pass the checker tables_ok (separators,
+                    keywords, formatter/parser handler agreement field by field
+                    and encoder by encoder); re-evaluated on every run.
+   C02_parse_format for every list of well-formed actions, parsing the formatted
+                    text gives back exactly that list, one action per line.
+                    Well-formed (wf_action): verbatim fields (xpaths, names,
+                    prefixes, URIs) contain no comma, double quote or line-break
+                    character and no leading/trailing white space; JSON-encoded
+                    fields (text, attribute values, comments) are None or ANY
+                    string of non-surrogate code points <= U+10FFFF; integer
+                    fields are any integer.
+   C02_format_total formatting well-formed actions never fails.
+   Proofs: XV.TextFormatProofs (with XV.StrProofs, XV.JsonProofs). *)
+From Coq Require Import List NArith ZArith.
+Require Import XV.Str XV.Json XV.TextFormat XV.Gen.TextTables XV.TextFormatProofs.
+Import ListNotations.
+Local Open Scope N_scope.
+
+Theorem C02_tables_ok : tables_ok XV.Gen.TextTables.tables = true.
+Proof. vm_compute. reflexivity. Qed.
+Print Assumptions C02_tables_ok.
+
+Theorem C02_parse_format : forall acts text,
+  Forall (wf_action tables) acts -> format tables acts = Ok text ->
+  parse tables text = Ok acts /\ length (splitlines text) = length acts.
+Proof. intros acts text. exact (parse_format_generic tables acts text C02_tables_ok). Qed.
+Print Assumptions C02_parse_format.
+
+Theorem C02_format_total : forall acts,
+  Forall (wf_action tables) acts -> exists text, format tables acts = Ok text.
+Proof. intros acts. exact (format_total_generic tables acts C02_tables_ok). Qed.
+Print Assumptions C02_format_total.
+
+(* The premise is satisfiable: one action of each kind; the text value contains
+   a comma, double quotes, a backslash, a newline, U+1F600 (non-BMP), U+2028,
+   a tab and brackets. *)
+Example C02_wf_example :
+  Forall (wf_action tables)
+    [GA [68;101;108;101;116;101;78;111;100;101] [PStr [47;114;111;111;116;47;97;91;49;93]];
+     GA [73;110;115;101;114;116;78;111;100;101] [PStr [47;114;111;111;116]; PStr [123;104;116;116;112;58;47;47;101;120;97;109;112;108;101;46;111;114;103;47;110;115;125;116;97;103]; PInt 3%Z];
+     GA [82;101;110;97;109;101;78;111;100;101] [PStr [47;114;111;111;116;47;97;91;50;93]; PStr [98]];
+     GA [77;111;118;101;78;111;100;101] [PStr [47;114;111;111;116;47;97;91;50;93]; PStr [47;114;111;111;116;47;99;91;49;93]; PInt 0%Z];
+     GA [85;112;100;97;116;101;84;101;120;116;73;110] [PStr [47;114;111;111;116;47;98;91;49;93]; PStr [97;44;32;34;98;34;32;92;32;99;10;100;32;128512;32;233;8232;9;91;120;93;44;32;93]];
+     GA [85;112;100;97;116;101;84;101;120;116;65;102;116;101;114] [PStr [47;114;111;111;116;47;98;91;49;93]; PNone];
+     GA [85;112;100;97;116;101;65;116;116;114;105;98] [PStr [47;114;111;111;116]; PStr [97;116;116;114]; PStr [97;44;32;34;98;34;32;92;32;99;10;100;32;128512;32;233;8232;9;91;120;93;44;32;93]];
+     GA [68;101;108;101;116;101;65;116;116;114;105;98] [PStr [47;114;111;111;116]; PStr [111;108;100;32;97;116;116;114]];
+     GA [73;110;115;101;114;116;65;116;116;114;105;98] [PStr [47;114;111;111;116]; PStr [123;104;116;116;112;58;47;47;119;119;119;46;119;51;46;111;114;103;47;88;77;76;47;49;57;57;56;47;110;97;109;101;115;112;97;99;101;125;108;97;110;103]; PStr []];
+     GA [82;101;110;97;109;101;65;116;116;114;105;98] [PStr [47;114;111;111;116]; PStr [120]; PStr [121]];
+     GA [73;110;115;101;114;116;67;111;109;109;101;110;116] [PStr [47;114;111;111;116]; PInt (-1)%Z; PStr [97;44;32;34;98;34;32;92;32;99;10;100;32;128512;32;233;8232;9;91;120;93;44;32;93]];
+     GA [73;110;115;101;114;116;78;97;109;101;115;112;97;99;101] [PStr []; PStr [104;116;116;112;58;47;47;101;120;97;109;112;108;101;46;111;114;103;47;110;115]];
+     GA [68;101;108;101;116;101;78;97;109;101;115;112;97;99;101] [PStr [110;115;48]]].
+Proof. apply wf_actionsb_spec. vm_compute. reflexivity. Qed.
+Print Assumptions C02_wf_example.
